@@ -285,7 +285,10 @@ def build_world(sc):
     db = add_data_block(dbi, b"\x11" * 16)
     datum = add_symbol(m, "datum", db)
     functions = []
-    if func["kind"] != "none":
+    if func["kind"] != "none" and func.get("orphan_after"):
+        fu = add_function(m, "f", b0, set())
+        functions = [gtirb_functions.Function(fu, {b0}, {b0}, [m.aux_data["functionNames"].data[fu]])]
+    elif func["kind"] != "none":
         fu = add_function(m, "f", b0, {b1})
         functions = [gtirb_functions.Function(fu, {b0}, {b0, b1}, [m.aux_data["functionNames"].data[fu]])]
     w = World()
@@ -379,6 +382,10 @@ def gen_signals(r, params):
 def gen_func(r, abi, params):
     kind = r.choices(["leaf", "nonleaf", "none"], weights=[50, 35, 15])[0]
     f = {"kind": kind, "history": kind != "none" and r.random() < 0.3, "site": r.randrange(3), "pie": r.random() < 0.7}
+    if kind == "nonleaf" and not f["history"] and r.random() < 0.25:
+        # the patch goes into a block that belongs to NO function and sits
+        # behind the blocks of a non-leaf function: it may be a leaf
+        f["orphan_after"] = True
     return f
 
 
@@ -886,7 +893,7 @@ def execute_c16(sc, params, stats):
     if func.get("history") and func["kind"] != "none":
         history_session(w, sc)
         stats["probe.history_session"] += 1
-    may_be_leaf = func["kind"] != "nonleaf"
+    may_be_leaf = func["kind"] != "nonleaf" or bool(func.get("orphan_after"))
 
     constraints = Constraints(
         x86_syntax=X86Syntax.INTEL if cons.get("x86_syntax") == "intel" else X86Syntax.ATT,
@@ -909,6 +916,9 @@ def execute_c16(sc, params, stats):
     block, off = [(w.b0, 0), (w.b0, w.first_len), (w.b1, 0)][func.get("site", 0) % 3]
     if func.get("history") and block is w.b1:
         block, off = w.b0, 0
+    if func.get("orphan_after"):
+        block, off = w.b1, 0
+        stats["probe.orphan_block_after_nonleaf"] += 1
     ctx.insert_at(block, off, patch)
     del _CAPTURE[:]
     satisfiable = cons["scratch_registers"] <= len(available_scratch(abi, cons))
@@ -1298,7 +1308,8 @@ def _execute_c17(sc, params, stats, cleanups):
         if not ok and isinstance(c, InsertionContext):
             ok = c == ictx
         if ok:
-            ok = c.module is w.m and c.block is block and c.offset == off and (c.function is None) == (not w.functions)
+            in_function = bool(w.functions) and any(block in f.get_all_blocks() for f in w.functions)
+            ok = c.module is w.m and c.block is block and c.offset == off and (c.function is None) == (not in_function)
         if not ok:
             raise core.Violation(prop, "callable-context", dict(cw, arg=i, got=repr(c)[:200]), {"abi": abi, "cause": "wrong-context"})
 
@@ -1648,6 +1659,8 @@ def shrink_candidates(prop, sc):
         for k in ("below", "shadow", "args", "regs"):
             if sc["callee"].get(k):
                 yield mod(lambda c, k=k: c["callee"].__setitem__(k, 0))
+    if sc["func"].get("orphan_after"):
+        yield mod(lambda c: c["func"].pop("orphan_after"))
     if sc["func"]["kind"] != "nonleaf":
         yield mod(lambda c: c["func"].update({"kind": "nonleaf", "history": False}))
     if sc["sigma"].get("salt"):
